@@ -466,21 +466,6 @@ theorem removeUp_spec {f x : Nat} (hf : 2 ≤ f) :
           calc q * f ^ exp = q / last * last * f ^ exp := by rw [← hq']
             _ = q / last * (f ^ exp * last) := by ring
 
-theorem tzLoop_odd : ∀ (fuel n : Nat), 0 < n → n ≤ fuel → (n / 2 ^ tzLoop fuel n) % 2 = 1 := by
-  intro fuel
-  induction fuel with
-  | zero => intro n h1 h2; omega
-  | succ k ih =>
-    intro n hn hle
-    unfold tzLoop
-    split
-    · rename_i h; simp; omega
-    · rename_i h
-      have hpos : 0 < n / 2 := by omega
-      have := ih (n / 2) hpos (by omega)
-      rw [Nat.pow_succ, Nat.mul_comm, ← Nat.div_div_eq_div_mul]
-      exact this
-
 /-- `UBig::remove`: `None` exactly for `x = 0` or `factor < 2`; otherwise the exact multiplicity
     `e` and the cofactor `q` with `x = q·f^e`, `f ∤ q` -/
 theorem removeRepr_spec (x f : Nat) :
